@@ -109,12 +109,89 @@ def frozen_defaults(prog: Program, res, cg: CallGraph, reach) -> None:
                        sig="default argument freezes ambient state at import time")
 
 
+def identity_keys(prog: Program, res, cg: CallGraph, reach) -> None:
+    """`id(x)` is unique only while x is alive: a container that outlives the call and is keyed by the identity
+    number of an object it does not hold answers, later, for another object at the same address."""
+    for q in sorted(reach):
+        fi = cg.funcs.get(q)
+        if fi is None or not hasattr(fi.node, "body"):
+            continue
+        node = fi.node
+        params = [p.arg for p in node.args.posonlyargs + node.args.args] if hasattr(node, "args") else []
+        me = params[0] if params and fi.cls is not None else None
+        local = set(params) | {n.id for n in ast.walk(node) if isinstance(n, ast.Name) and isinstance(n.ctx, ast.Store)}
+
+        def has_id(e, idnames):
+            return any((isinstance(x, ast.Call) and isinstance(x.func, ast.Name) and x.func.id == "id") or
+                       (isinstance(x, ast.Name) and x.id in idnames) for x in ast.walk(e))
+
+        def id_subjects(e, idnames, subj):
+            out = set()
+            for x in ast.walk(e):
+                if isinstance(x, ast.Call) and isinstance(x.func, ast.Name) and x.func.id == "id" and x.args:
+                    out.add(src_of(x.args[0]))
+                elif isinstance(x, ast.Name) and x.id in idnames:
+                    out |= subj.get(x.id, set())
+            return out
+        idnames, subj = set(), {}
+        for n in ast.walk(node):
+            if isinstance(n, ast.Assign) and len(n.targets) == 1 and isinstance(n.targets[0], ast.Name) and has_id(n.value, set()):
+                idnames.add(n.targets[0].id)
+                subj[n.targets[0].id] = id_subjects(n.value, set(), {})
+
+        aliases = {}
+        for n in ast.walk(node):
+            if isinstance(n, ast.Assign) and len(n.targets) == 1 and isinstance(n.targets[0], ast.Name) and \
+                    isinstance(n.value, ast.Name) and n.value.id not in local and n.value.id in fi.module.globals:
+                aliases[n.targets[0].id] = n.value.id
+
+        def persistent(c):
+            if isinstance(c, ast.Name):
+                return (c.id not in local and c.id in fi.module.globals) or c.id in aliases
+            return isinstance(c, ast.Attribute) and isinstance(c.value, ast.Name) and c.value.id in ((me,) if me else ()) + ("cls", "self")
+        sites = []
+        for n in ast.walk(node):
+            if isinstance(n, ast.Assign):
+                for t in n.targets:
+                    if isinstance(t, ast.Subscript):
+                        # (as a key, or - container[...] = (id(x), ...) - as a stored value that later calls compare)
+                        sites.append((n, t.value, t.slice, n.value))
+            elif isinstance(n, ast.Call) and isinstance(n.func, ast.Attribute) and n.func.attr in ("add", "setdefault", "append", "extend") \
+                    and n.args:
+                sites.append((n, n.func.value, n.args[0], n.args[1] if len(n.args) > 1 else None))
+        for n, cont, key, val in sites:
+            if not persistent(cont):
+                continue
+            exprs = [e for e in (key, val) if e is not None and has_id(e, idnames)]
+            if not exprs:
+                continue
+            subjects = set()
+            for e in exprs:
+                subjects |= id_subjects(e, idnames, subj)
+            kept = set()
+            for e in (key, val):
+                if e is None:
+                    continue
+                # the object itself stored alongside: the value / key, or an element of it (not something computed
+                # from the object)
+                elems = list(e.elts) if isinstance(e, (ast.Tuple, ast.List)) else [e]
+                for x in elems:
+                    if isinstance(x, (ast.Name, ast.Attribute)):
+                        kept.add(src_of(x))
+            lost = sorted(s_ for s_ in subjects if s_ not in kept)
+            if lost:
+                res.ob("R00.id", q, f"`{src_of(cont)}` keyed by the identity number of {', '.join(lost)}", False,
+                       f"{src_of(n)[:120]}: the container outlives the call but does not hold the object(s) - after they "
+                       f"die, another object at the same address finds their entry", sig="state keyed by id() of an object it does not keep alive")
+
+
 def apply(prog: Program, res) -> None:
     """File the memoisation / default-argument obligations of one property's result."""
     cg = CallGraph(prog)
     roots = [q for q in getattr(res, "functions", ()) if q in cg.funcs]
     reach = cg.reachable_from(roots) if roots else set()
     frozen_defaults(prog, res, cg, reach)
+    identity_keys(prog, res, cg, set(reach) | set(roots))
     memo = memoised_functions(prog)
     if not memo:
         res.notes.append("memoisation by decorator: none in the package")
